@@ -56,10 +56,17 @@ func vPad32(v *big.Int) []byte {
 }
 
 // vScalarOf builds the scalar with canonical value v (< n) through the public decoder.
+// vScalarOf builds the scalar with canonical value v directly from its Montgomery limbs (v * 2^256 mod n): no code of
+// the library is involved in constructing replay operands.
 func vScalarOf(t *testing.T, v *big.Int) *Scalar {
-	s := NewScalar()
-	if err := s.Decode(vPad32(v)); err != nil {
-		t.Fatalf("cannot build scalar %x: %v", v, err)
+	if v.Sign() < 0 || v.Cmp(vN) >= 0 {
+		t.Fatalf("replay operand %x is not a canonical scalar", v)
+	}
+	m := new(big.Int).Mod(new(big.Int).Lsh(v, 256), vN)
+	s := &Scalar{}
+	mask := new(big.Int).SetUint64(^uint64(0))
+	for i := 0; i < 4; i++ {
+		s.S[i] = new(big.Int).And(new(big.Int).Rsh(m, uint(64*i)), mask).Uint64()
 	}
 	return s
 }
